@@ -379,3 +379,161 @@ def structured_roundtrip(dims, nrefine, taillen, model=None, budget=4000):
             break
     print('REPLAY: not reproduced (%d structured lookups tried)' % tried)
     return True
+
+
+def structured_foreign(what):
+    """StructuredTransforms.index_with_tail must reject (ValueError) a chain that is too short / has a foreign root / a non-Index item
+    where an Index is expected / a non-child item where a child transform is expected."""
+    from nutils import transform, element
+    seq = _structured([True, True], [(0, 4, 0), (1, 5, 0)], 1)
+    x = seq[5]
+    sq = element.LineReference()**2
+    bad = {'short': x[:3], 'root': (transform.Index(2, 7),) + x[1:], 'non-index': x[:2] + (sq.child_transforms[0],) + x[3:],
+           'non-child': x[:3] + (sq.edge_transforms[0],)}[what]
+    try:
+        r = seq.index_with_tail(bad)
+    except ValueError:
+        print('REPLAY: not reproduced (ValueError raised)')
+        return True
+    except Exception as e:
+        print('index_with_tail raised %s instead of ValueError' % type(e).__name__)
+        print('REPLAY: VIOLATION-CONFIRMED foreign chain (%s) not rejected with ValueError' % what)
+        return False
+    print('index_with_tail(%r) returned %r' % (bad, r))
+    print('REPLAY: VIOLATION-CONFIRMED foreign chain (%s) accepted by StructuredTransforms.index_with_tail' % what)
+    return False
+
+
+# ------------------------------------------------- PlainTransforms / EmptyTransforms / base helpers (contracts/c11_plain.py) --
+
+def _plain_families(seed=0, rounds=60):
+    """PlainTransforms whose elements have heads of different lengths and shared items; the items are created in shuffled order so that
+    the id() order (the sort key of the lookup table) varies"""
+    from nutils import transformseq, transform, element
+    rng = random.Random(seed)
+    line = element.LineReference()
+    ch = line.child_transforms
+    base = rng.randrange(1000, 100000)
+    for r in range(rounds):
+        nroots = rng.randint(1, 4)
+        ks = list(range(base + 10 * r, base + 10 * r + nroots))
+        rng.shuffle(ks)
+        roots = {k: transform.Index(1, k) for k in ks}  # creation order = shuffled
+        elems = []
+        for k in sorted(roots):
+            shape = rng.choice(['plain', 'split', 'deep'])
+            if shape == 'plain':
+                elems.append((roots[k],))
+            elif shape == 'split':
+                elems += [(roots[k], ch[0]), (roots[k], ch[1])]
+            else:
+                elems += [(roots[k], ch[0]), (roots[k], ch[1], ch[0]), (roots[k], ch[1], ch[1])]
+        rng.shuffle(elems)
+        yield transformseq.PlainTransforms(tuple(elems), 1, 1), elems, ch
+
+
+def plain_roundtrip(seed=0):
+    from nutils import transform
+    tried = 0
+    for seq, elems, ch in _plain_families(seed):
+        for i, e in enumerate(elems):
+            for tail in [(), (ch[0],), (ch[1], ch[0])]:
+                tried += 1
+                try:
+                    if seq[i] != e:
+                        raise AssertionError('self[%d] is not transforms[%d]' % (i, i))
+                    k, t = seq.index_with_tail(e + tail)
+                    ok = k == i and t == tail
+                    msg = 'index_with_tail(self[%d] + %r) == %r' % (i, tail, (k, t))
+                except Exception as ex:
+                    ok, msg = False, 'self[%d] / index_with_tail raised %s: %s' % (i, type(ex).__name__, ex)
+                if not ok:
+                    print('PlainTransforms(%r): %s' % (elems, msg))
+                    print('REPLAY: VIOLATION-CONFIRMED PlainTransforms lookup is not the inverse of element access (found by searching a family of plain sequences)')
+                    return False
+        # foreign chains: a root that is not in the sequence, and a proper head of an element that is itself no element
+        foreign = [(transform.Index(1, 5),), (transform.Index(1, 5), ch[0])]
+        foreign += [e[:n] for e in elems for n in range(1, len(e)) if e[:n] not in elems and not any(e[:n][:len(f)] == f for f in elems)]
+        for f in foreign:
+            tried += 1
+            try:
+                r = seq.index_with_tail(f)
+            except ValueError:
+                continue
+            except Exception as ex:
+                r = 'raised %s' % type(ex).__name__
+            print('PlainTransforms(%r).index_with_tail(%r): %r' % (elems, f, r))
+            print('REPLAY: VIOLATION-CONFIRMED a chain none of whose heads is an element is not rejected with ValueError')
+            return False
+    print('REPLAY: not reproduced (%d plain lookups tried)' % tried)
+    return True
+
+
+def empty_transforms():
+    from nutils import transformseq, transform
+    e = transformseq.EmptyTransforms(2, 1)
+    t = (transform.Index(2, 0),)
+    fails = []
+
+    def raises(f, exc):
+        try:
+            f()
+        except exc:
+            return True
+        except Exception:
+            return False
+        return False
+    if len(e) != 0:
+        fails.append('len')
+    for i in (0, -1, 3):
+        if not raises(lambda: e[i], IndexError):
+            fails.append('getitem(%d)' % i)
+    if not raises(lambda: e.index_with_tail(t), ValueError):
+        fails.append('index_with_tail')
+    if not raises(lambda: e.index(t), ValueError):
+        fails.append('index')
+    if e.contains(t) is not False or e.contains_with_tail(t) is not False or (t in e):
+        fails.append('contains')
+    if fails:
+        print('EmptyTransforms: wrong answer of %s' % ', '.join(fails))
+        print('REPLAY: VIOLATION-CONFIRMED the empty sequence claims an element')
+        return False
+    print('REPLAY: not reproduced')
+    return True
+
+
+def base_helpers():
+    """Transforms.index / contains / contains_with_tail against index_with_tail on real sequences"""
+    from nutils import transformseq, transform, element
+    line = element.LineReference()
+    ch = line.child_transforms
+    seqs = [transformseq.IndexTransforms(1, 3), transformseq.IndexTransforms(1, 3).refined(transformseq.References.uniform(line, 3)) if hasattr(transformseq, 'References') else None]
+    seqs = [s for s in seqs if s is not None]
+    seqs.append(transformseq.PlainTransforms(((transform.Index(1, 0),), (transform.Index(1, 1), ch[0])), 1, 1))
+    tried = 0
+    for seq in seqs:
+        chains = [seq[i] + tail for i in range(len(seq)) for tail in [(), (ch[0],), (ch[1], ch[1])]] + [(transform.Index(1, 77),), (transform.Index(1, 1),)]
+        for c in chains:
+            tried += 1
+            try:
+                k, tail = seq.index_with_tail(c)
+                found, exact = True, not tail
+            except ValueError:
+                found = exact = False
+            try:
+                idx = seq.index(c)
+            except ValueError:
+                idx = None
+            bad = []
+            if (idx is not None) != exact or (exact and idx != k):
+                bad.append('index(%r) == %r' % (c, idx))
+            if seq.contains(c) is not exact or (c in seq) is not exact:
+                bad.append('contains(%r) == %r' % (c, seq.contains(c)))
+            if seq.contains_with_tail(c) is not found:
+                bad.append('contains_with_tail(%r) == %r' % (c, seq.contains_with_tail(c)))
+            if bad:
+                print('%r: %s but index_with_tail %s' % (seq, '; '.join(bad), 'returns (%r, %r)' % (k, tail) if found else 'raises ValueError'))
+                print('REPLAY: VIOLATION-CONFIRMED index/contains disagree with index_with_tail')
+                return False
+    print('REPLAY: not reproduced (%d chains tried)' % tried)
+    return True
